@@ -316,6 +316,7 @@ def c11_oracle(ops, outs):
     present everywhere"""
     res, seen = [], set()
     applied = {}   # (peer, id) -> newest mdate covered by a stored deletion record
+    prev = None
     for i, (op, out) in enumerate(zip(ops, outs)):
         if i == 0: continue
         if out.startswith("fail:"): return [("harness-" + out.split(" ")[0][5:45], out[:100])]
@@ -324,7 +325,9 @@ def c11_oracle(ops, outs):
         except ValueError as e:
             return [("malformed", str(e))]
         if peers is None: continue
+        k, a = kv(op)
         for pi, p in enumerate(peers):
+            had_record = {t["id"] for t in prev[pi].ntombs} if prev is not None and pi < len(prev) else set()
             for t in p.ntombs:
                 k2 = (pi, t["id"])
                 applied[k2] = max(applied.get(k2, -1), t["mdate"])
@@ -333,9 +336,19 @@ def c11_oracle(ops, outs):
                 n = p.nodes.get(rid)
                 if n is not None and n["mdate"] <= md and (pi, rid) not in seen:
                     seen.add((pi, rid))
-                    k, a = kv(op)
-                    sig = "deleted-row-back-after-pull" if k in ("pull", "settle") else "deleted-row-back-after-local-write"
+                    src_had_row = True
+                    if k == "pull" and prev is not None and a.get("src", "").isdigit() and int(a["src"]) < len(prev):
+                        src_had_row = rid in prev[int(a["src"])].nodes
+                    if rid not in had_record and k != "settle" and not (k == "pull" and src_had_row):
+                        # the record was stored by this very op, nobody offered the row, and the row is still there
+                        sig = "deletion-record-stored-row-kept"
+                    elif k in ("pull", "settle"):
+                        # the peer held the record, a later pull brought the row (back)
+                        sig = "deleted-row-back-after-pull"
+                    else:
+                        sig = "deleted-row-back-after-local-write"
                     res.append((sig, "peer %d shows row %s (mdate %d) although it stores its deletion record; after `%s`" % (pi, rid, n["mdate"], op)))
+        prev = peers
     for room, rounds, quiet, f, peers in final_settles(ops, outs):
         if not quiet: continue
         for pi, p in enumerate(peers):
